@@ -20,7 +20,7 @@ MOD = "debian.deb822"
 NAMES = ["Package", "X-Foo", "a1", "X-Bug#", "Depends", "Description", "x.y_z", "Build-Depends-Indep"]
 from vf import tricky
 FIRST = ["v", "1.0 (x)", ": v", "#v", "v: w", "", "a  b", "é ü", "-", "v #c"] + tricky.VALUE_BITS
-CONT = [" c", "\tc", " .", " a: b", " #x", "  two  words ", " é", " :", "\t# t", " -----BEGIN x-----", " -----BEGIN PGP PUBLIC KEY BLOCK-----",
+CONT = [" c", "\tc", " .", " a: b", " Usage: ", " Contact: ", " x:", " : ", " a:\t", " #x", "  two  words ", " é", " :", "\t# t", " -----BEGIN x-----", " -----BEGIN PGP PUBLIC KEY BLOCK-----",
         " -----END PGP PUBLIC KEY BLOCK-----", "\t-----BEGIN PGP SIGNATURE-----", " -----BEGIN PGP SIGNED MESSAGE-----"] + \
     [" " + b for b in tricky.VALUE_BITS]
 
